@@ -7,7 +7,8 @@ package main
 //             g<n>   getTransport(<n>)                  n = a TLS server name, one letter
 //             i<n>   the cached transport of <n> has not been used for 2 x destinationTripperLifetime (its lastUsed is
 //                    moved back; the reaper only ever acts on transports idle for more than 5 minutes)
-//             j<n>   … for destinationTripperLifetime minus one minute (not idle long enough)
+//             j<n>   … for destinationTripperLifetime minus one minute (not idle long enough on its own; idle periods add
+//                    up until the next getTransport of <n>)
 //             R      one pass of the reaper (what its timer does once a minute)
 //   trace   per move  g<n>=<id>[names] | i<n>:<0|1>[names] | j<n>:<0|1>[names] | R[names]  joined by `|`
 //           id = number of the transport in order of first appearance; names = the cached TLS server names, sorted;
